@@ -1159,11 +1159,11 @@ def _open_signatures():
 
 def random_shard(shard, nshards, seed, tier):
     st_ = core.Stats()
-    n = (26000 if tier == 'quick' else 640000) // nshards
+    n = (40000 if tier == 'quick' else 640000) // nshards
     open_sigs = _open_signatures()
     holder = [None]
     try:
-        core.hyp_search(_strategies(), _check_fn(holder, open_sigs), st_, max_examples=n, seed=seed, max_signatures=6)
+        core.hyp_search(_strategies(), _check_fn(holder, open_sigs), st_, max_examples=n, seed=seed, max_signatures=3)
     finally:
         if holder[0] is not None:
             holder[0].close()
@@ -1205,9 +1205,11 @@ def run(tier, seed, stats):
     stats.merge(core.parallel(random_shard, 16, seed, tier))
     if tier == 'thorough':
         stats.merge(fuzz_campaign(seed))
-    stats.extra['open_finding_exclusion'] = (
-        'WMS GetMap whose TIME/ELEVATION/DIM_* key or value makes the directory component <key>-<value> escape, '
-        'addressed at a layer of a file cache with layout tc/mp/tms/reverse_tms, is not served while the finding is open')
+    if _open_signatures():
+        stats.extra['open_finding_exclusion'] = (
+            'WMS GetMap whose TIME/ELEVATION/DIM_* key or value makes the directory component <key>-<value> escape, '
+            'addressed at a layer of a file cache whose dimension finding is open, is not served: %s'
+            % sorted(_open_signatures()))
 
 
 def replay(case, stats):
